@@ -275,7 +275,21 @@ impl Property for C07 {
             if i < tier.pick(40, 2000) {
                 r["compile"] = json!(true);
             }
+            if i % 3 == 1 {
+                r["prebatch"] = json!(true);
+            }
         }
+        // every exhaustive graph also after an unrelated batch
+        let with_pre: Vec<Value> = out
+            .iter()
+            .map(|gv| {
+                let mut x = gv.clone();
+                x["prebatch"] = json!(true);
+                x["compile"] = json!(false);
+                x
+            })
+            .collect();
+        out.extend(with_pre);
         out.extend(rnd);
         out
     }
@@ -291,7 +305,13 @@ impl Property for C07 {
             unit.classes.push("containment-cycle".into());
         }
         let names = crate::gen::schema::def_names(&doc);
-        let case = Case { history: vec![Step::Root { doc }], roots: names.iter().map(|n| RootSel::Ref { r: format!("#/definitions/{n}") }).collect(), ..Default::default() };
+        // optionally an unrelated batch is added first (type ids then do not start at 1)
+        let mut history = vec![];
+        if gv["prebatch"].as_bool() == Some(true) {
+            history.push(Step::Refs { defs: json!({"Unrelated": {"type": "object", "properties": {"u": {"type": "string"}}}, "UnrelatedToo": {"type": "string", "enum": ["p", "q"]}}) });
+        }
+        history.push(Step::Root { doc });
+        let case = Case { history, roots: names.iter().map(|n| RootSel::Ref { r: format!("#/definitions/{n}") }).collect(), ..Default::default() };
         let mut ing = ingest::ingest(&case);
         unit.outcome = ing.outcome.clone();
         unit.message = ing.message.clone();
